@@ -388,7 +388,53 @@ def replay_wave(data):
         return True, f'{type(e).__name__}: {e}'
 
 
+def launcher_check(rep):
+    """the pure-Python grid launcher visits every (x, y) thread index of the grid exactly once (finite, exhaustive over the dims used)"""
+    import kyupy
+    bad = None
+    for block in ((32, 16), (2, 3), (3, 2), (1, 1), (4, 4)):
+        for grid in itertools.product((1, 2, 3), repeat=2):
+            seen = []
+
+            @kyupy.cuda.jit()
+            def probe():
+                x, y = kyupy.cuda.grid(2)
+                seen.append((x, y))
+            probe[grid, block]()
+            want = sorted((x, y) for x in range(grid[0] * block[0]) for y in range(grid[1] * block[1]))
+            rep.counts['obligations'] += 1
+            if sorted(seen) != want and bad is None:
+                miss = sorted(set(want) - set(seen))[:3]
+                bad = f'launcher with grid {grid} block {block} visits {len(seen)} thread indices ({len(set(seen))} distinct) instead of {len(want)}; missing e.g. {miss}'
+            else: rep.counts['discharged'] += 1
+    if bad: rep.violation('wave/launcher-coverage', bad, {'mode': 'launcher'})
+    # large batches on both code paths (concrete, supplementary): every lane of 70 must equal the CPU result
+    nl = wsim.E2E_NLS[0]
+    c = netlist.build(nl, 'verilog')
+    rng = np.random.default_rng(5)
+    d = (rng.integers(1, 40, (1, len(c.lines), 2, 2)) / 8.0).astype(np.float32)
+    res = []
+    for cls in (WaveSim, WaveSimCuda):
+        w = cls(c, d, sims=70, c_caps=8)
+        r2 = np.random.default_rng(9)
+        w.s[0] = r2.integers(0, 2, w.s[0].shape); w.s[2] = r2.integers(0, 2, w.s[2].shape); w.s[1] = r2.integers(-16, 16, w.s[1].shape) / 4.0
+        w.s_to_c(); w.c_prop(); w.c_to_s()
+        res.append(np.array(w.s[3:8]))
+    rep.counts['obligations'] += 1
+    if not np.array_equal(res[0], res[1]):
+        lanes_bad = sorted(set(np.argwhere(res[0] != res[1])[:, 2].tolist()))
+        rep.violation('wave/launcher-coverage', f'WaveSim and WaveSimCuda differ for sims=70 in lanes {lanes_bad[:6]}...', {'mode': 'launcher'})
+    else: rep.counts['discharged'] += 1
+
+
+def replay_launcher(data):
+    r = common.Report()
+    launcher_check(r)
+    return bool(r.violations), r.violations[0]['what'] if r.violations else 'ok'
+
+
 def replay(data):
+    if data['mode'] == 'launcher': return replay_launcher(data)
     if data['mode'] == 'logic': return replay_logic(data)
     if data['mode'] == 'wave': return replay_wave(data)
     return False, 'lane interference is reported from the solver model only'
@@ -401,6 +447,7 @@ def dispatch(job):
 def run(tier, seed):
     J = [('wave', j) for j in wave_jobs(tier)] + [('logic', j) for j in logic_corpus(tier, seed)]
     rep = common.pmap(dispatch, J, chunksize=1)
+    launcher_check(rep)
     cov = {
         'states': int(rep.counts['paths']), 'transitions': int(rep.counts['branches']) + int(rep.counts['ops']), 'traces_validated_against_impl': len(rep.violations),
         'obligations': int(rep.counts['obligations']), 'discharged': int(rep.counts['discharged']), 'wave_paths': int(rep.counts['wave_paths']),
